@@ -64,6 +64,50 @@ def const_false(method):
     return len(body) == 1 and type(body[0]).__name__ == 'Return' and type(body[0].value).__name__ == 'Constant' and body[0].value.value is False
 
 
+def _multi_line_group(cat, y, fr, g, members, rep, key0):
+    from ..lineabs import InputsTok, ValuesTok
+    from ..lines import get_analysis
+    # the enumeration inputs every driving line reads
+    common = None
+    defs = []
+    for (r, line, lrec, owner) in members:
+        clo = field_closure(lrec)
+        ev = LineEval(cat, y, owner)
+        paths = ev.run(clo, [lrec, InputsTok(owner.rec), ValuesTok(owner.rec)])
+        atoms = {rd.atom: rd for p in paths for rd in p.reads if rd.kind == 'i' and rd.res.decl is not None and rd.res.decl.cls.is_sub_named('EnumInput')}
+        common = set(atoms) if common is None else common & set(atoms)
+        defs.append((r, line, lrec, owner, atoms))
+    if not common or len(common) != 1:
+        rep.undecide(f'{key0}/{g}: exclusive group driven by several lines that do not share one enumeration input; not judged')
+        return False
+    atom = next(iter(common))
+    enum = defs[0][4][atom].res.decl.attrs.get('enum')
+    for mname in enum.members:
+        on = []
+        for (r, line, lrec, owner, _a) in defs:
+            ev = LineEval(cat, y, owner, assume={atom: enum.member(mname)})
+            paths = ev.run(field_closure(lrec), [lrec, InputsTok(owner.rec), ValuesTok(owner.rec)])
+            vals = {repr(p.outcome.value) if p.outcome.kind == 'ret' else 'raise' for p in paths}
+            if len(paths) != 1 or paths[0].outcome.kind != 'ret' or isinstance(paths[0].outcome.value, E):
+                rep.undecide(f'{key0}/{g}: line {line} is not decided by {atom} = {mname} alone ({sorted(vals)[:2]})')
+                return False
+            v = paths[0].outcome.value
+            clo = pdf_value_fn(r)
+            if clo is not None:
+                ev2 = LineEval(cat, y, fr)
+                p2 = ev2.run(clo, [r, v, lrec])
+                if len(p2) != 1 or p2[0].outcome.kind != 'ret' or isinstance(p2[0].outcome.value, E):
+                    rep.undecide(f'{key0}/{g}: mapping value function of {r.attrs.get("pdf_field_name")} not decidable')
+                    return False
+                v = p2[0].outcome.value
+            if v:
+                on.append(r.attrs.get('pdf_field_name'))
+        rep.ob('R18.6', f'{key0}/{g}/{atom}={mname}', len(on) <= 1,
+               f'{fr.name}: with {atom} = {mname} the exclusive boxes {on} are all switched on', members[0][0].where,
+               sample={'group': g, 'value': mname, 'on': on})
+    return True
+
+
 def check(tree, rep, tier='quick', seed=0):
     rep.explanation = ('Agreement between two static artifacts: the pdf_fields table of every form (statically evaluated '
                        'constructors) and the field tree / XFA accessibility text / export values / length limits parsed from '
@@ -198,7 +242,7 @@ def check(tree, rep, tier='quick', seed=0):
                         rep.ob('R18.4', mkey + '/dependents-table', int(dm.group(1)) == row - 1 and dm.group(2) in want_col,
                                f'{fr.name}: box {box} is row {row} column ({col}) of the dependents table but is filled from {line!r}', r.where)
                 # groups
-                g = re.sub(r'\[\d+\]$', '', box) if box.endswith(']') else re.sub(r'(yes|no)$', '', box, flags=re.I)
+                g = re.sub(r'\[\d+\]$', '', box) if box.endswith(']') else re.sub(r'(yes|no)$|(?<=fstat)\d+$', '', box, flags=re.I)
                 if cls.is_sub_named('ButtonPDFField') and g != box:
                     groups.setdefault(g, []).append((r, line, lrec, owner))
             # ---- R18.6 exclusive groups
@@ -206,6 +250,11 @@ def check(tree, rep, tier='quick', seed=0):
                 if len(members) < 2:
                     continue
                 lines = {m[1] for m in members}
+                if len(lines) != 1 and all(m[2] is not None for m in members):
+                    # several driving lines: decidable when each of them is a function of one shared enumeration input
+                    if _multi_line_group(cat, y, fr, g, members, rep, key0):
+                        n_groups += 1
+                    continue
                 if len(lines) != 1 or members[0][2] is None:
                     rep.undecide(f'{key0}/{g}: exclusive group driven by several lines {sorted(map(str, lines))}; not judged here')
                     continue
